@@ -21,6 +21,7 @@ func views() map[string]View {
 		"connio":    connioView{},
 		"authwatch": authwatchView{},
 		"poolmon":   poolmonView{},
+		"handover":  handoverView{},
 	}
 }
 
